@@ -29,6 +29,16 @@ R12.4 quantile levels: invalid events are removed from both coordinates with
       one mask, grid and events of an axis are normalised by the same
       quantity, the level is the q*100-th percentile of the densities
       interpolated at the events.
+R12.5 purge before statistics (def-use over the CFG, sibling agreement):
+      every bin-width / bin-number helper of kde_methods (``bin_width_*``,
+      ``bin_num_*`` and any function with the same idiom) removes NaN and
+      inf from its parameter (``data = a[~bad]``) and takes every statistic
+      (size, min, max, skew, percentile …) from the purged value; the raw
+      parameter is only used to compute the mask, to form the purged value,
+      or as the argument of a sibling that purges it itself.
+R12.6 downsampled scatter (evaluated symbolically): the returned mask has
+      the length of the dataset and marks exactly the events whose data are
+      returned, which are selected events.
 """
 from __future__ import annotations
 
@@ -1213,6 +1223,282 @@ def r124(ctx, repo):
            label="quantile: percentile of event densities")
 
 
+# ----------------------------------------------------------------------
+# R12.5 purge before statistics
+
+FINITE_TESTS = {"isnan", "isinf", "isfinite"}
+
+
+def _mask_info(expr, params):
+    """(parameter, {isnan, isinf, isfinite} used on it) of a mask
+    expression, or None"""
+    found = {}
+    for c in ast.walk(expr):
+        if isinstance(c, ast.Call) and last_attr(c) in FINITE_TESTS \
+                and len(c.args) == 1 and isinstance(c.args[0], ast.Name) \
+                and c.args[0].id in params:
+            found.setdefault(c.args[0].id, set()).add(last_attr(c))
+    if len(found) == 1:
+        return list(found.items())[0]
+    return None
+
+
+class Purge:
+    """the purge idiom of one function: masks, purged values, raw uses"""
+
+    def __init__(self, func):
+        self.func = func
+        self.params = [a.arg for a in func.args.posonlyargs + func.args.args]
+        self.masks = {}      # mask name -> (param, tests, positive?)
+        self.purges = []     # (param, target name, assign stmt)
+        for n in walk(func):
+            if isinstance(n, ast.Assign) and len(n.targets) == 1 \
+                    and isinstance(n.targets[0], ast.Name):
+                mi = _mask_info(n.value, self.params)
+                if mi and not isinstance(n.value, ast.Subscript):
+                    self.masks[n.targets[0].id] = mi
+        for n in walk(func):
+            if isinstance(n, ast.Assign) and len(n.targets) == 1 \
+                    and isinstance(n.targets[0], ast.Name) and isinstance(
+                    n.value, ast.Subscript) and isinstance(
+                    n.value.value, ast.Name) \
+                    and n.value.value.id in self.params:
+                sl = n.value.slice
+                p = n.value.value.id
+                tests = None
+                if isinstance(sl, ast.UnaryOp) and isinstance(
+                        sl.op, ast.Invert) and isinstance(
+                        sl.operand, ast.Name) and sl.operand.id in self.masks:
+                    mp, t = self.masks[sl.operand.id]
+                    if mp == p and "isfinite" not in t:
+                        tests = t
+                elif isinstance(sl, ast.Name) and sl.id in self.masks:
+                    mp, t = self.masks[sl.id]
+                    if mp == p and t == {"isfinite"}:
+                        tests = t
+                else:
+                    mi = _mask_info(sl, self.params)
+                    if mi and mi[0] == p:
+                        inv = isinstance(sl, ast.UnaryOp) and isinstance(
+                            sl.op, ast.Invert)
+                        if (mi[1] == {"isfinite"} and not inv) or (
+                                "isfinite" not in mi[1] and inv):
+                            tests = mi[1]
+                if tests is not None:
+                    self.purges.append((p, n.targets[0].id, n, tests))
+
+    def complete(self, p):
+        for (pp, d, st, tests) in self.purges:
+            if pp == p and (tests == {"isfinite"}
+                            or {"isnan", "isinf"} <= tests):
+                return True
+        return False
+
+
+def r125(ctx, repo):
+    funcs = {st.name: st for st in repo.tree(KDE).body
+             if isinstance(st, ast.FunctionDef)}
+    info = {name: Purge(f) for name, f in funcs.items()}
+    helpers = sorted(n for n in funcs if re.match(r"bin_(width|num)_\w+$", n)
+                     or (info[n].purges and n.startswith("bin_")))
+    if len(helpers) < 3:
+        raise AnalysisError("kde_methods: bin-width / bin-number helpers "
+                            "not found")
+
+    def purges_param(name, idx, seen=()):
+        """sibling `name` purges its idx-th parameter itself"""
+        if name not in info or name in seen:
+            return False
+        pu = info[name]
+        if idx >= len(pu.params):
+            return False
+        return pu.complete(pu.params[idx])
+
+    for name in helpers:
+        f = funcs[name]
+        pu = info[name]
+        if not pu.params:
+            raise AnalysisError(f"{name}: no data parameter")
+        p = pu.params[0]
+        ok = pu.complete(p)
+        ctx.ob("R12.5", ok,
+               f"{name} removes NaN and inf from `{p}` before computing "
+               f"anything" if ok else
+               f"{name} does not form a purged copy of `{p}` "
+               f"(`data = {p}[~(isnan | isinf)]`) like its siblings: invalid "
+               f"values enter the bin width", node=f,
+               label=f"{name} purges invalid values")
+        if not ok:
+            continue
+        cfg = CFG(f)
+        rebinding = [st for (pp, d, st, t) in pu.purges if pp == p and d == p]
+        offenders = []
+        for n in walk(f):
+            if not (isinstance(n, ast.Name) and n.id == p
+                    and isinstance(n.ctx, ast.Load)):
+                continue
+            par = n.parent
+            # (a) the finite tests that build the mask
+            if isinstance(par, ast.Call) and last_attr(par) in FINITE_TESTS:
+                continue
+            # (b) the purge subscript itself
+            if isinstance(par, ast.Subscript) and par.value is n and any(
+                    st.value is par for (_, _, st, _) in pu.purges):
+                continue
+            # (c) argument of a sibling that purges it itself
+            if isinstance(par, ast.Call) and isinstance(
+                    par.func, ast.Name) and par.func.id in funcs \
+                    and n in par.args and purges_param(
+                        par.func.id, par.args.index(n), (name,)):
+                continue
+            if isinstance(par, ast.keyword):
+                call = par.parent
+                if isinstance(call, ast.Call) and isinstance(
+                        call.func, ast.Name) and call.func.id in funcs:
+                    sib = info[call.func.id]
+                    if par.arg in sib.params and sib.complete(par.arg):
+                        continue
+            # (d) after `p = p[~bad]` the name holds the purged value
+            if rebinding:
+                st = n
+                while not isinstance(st, ast.stmt):
+                    st = st.parent
+                heads = set()
+                for r in rebinding:
+                    heads |= set(cfg.ids_of(r))
+                ids = cfg.ids_of(st) or cfg.ids_of(_cfg_stmt(cfg, st))
+                if ids and all(cfg.always_before(
+                        i, lambda nd: nd.id in heads) for i in ids) \
+                        and st not in rebinding:
+                    continue
+            offenders.append(n)
+        what = sorted({short(_stmt(n), 50) for n in offenders})
+        ctx.ob("R12.5", not offenders,
+               f"{name}: every statistic is taken from the purged value; "
+               f"`{p}` is only used for the mask, the purge and purging "
+               f"siblings" if not offenders else
+               f"{name}: the raw parameter `{p}` (NaN / inf still inside) "
+               f"is used in `{'`, `'.join(what)}` – excluded invalid events "
+               f"influence the bin width", node=f,
+               label=f"{name} statistics from purged data")
+    ctx.stat("R12.5 helpers", helpers)
+
+
+def _stmt(n):
+    while not isinstance(n, ast.stmt):
+        n = n.parent
+    return n
+
+
+def _cfg_stmt(cfg, st):
+    n = st
+    while n is not None and not cfg.ids_of(n):
+        n = getattr(n, "parent", None)
+    return n
+
+
+# ----------------------------------------------------------------------
+# R12.6 downsampled scatter: mask and data agree
+
+def r126(ctx, repo):
+    f = repo.func(CORE, "RTDCBase.get_downsampled_scatter")
+    cls = repo.cls(CORE, "RTDCBase")
+    bad = {"data": None, "mask": None}
+    n_eval = 0
+    for mask in ([True, False, True, True, False, True],
+                 [False, False, True, True, True, True],
+                 [True] * 6, [False, True, False, False, False, False]):
+        nsel = sum(mask)
+        picks = [[True] * nsel, [i % 2 == 0 for i in range(nsel)],
+                 [i == nsel - 1 for i in range(nsel)], [False] * nsel]
+        for pick in picks:
+            n_eval += 1
+            seen = {}
+
+            def grid(a, b, samples=0, remove_invalid=False, ret_idx=False):
+                seen["a"], seen["b"] = a, b
+                idx = Arr(list(pick), "bool")
+                return (a[idx], b[idx], idx) if ret_idx else (a[idx], b[idx])
+
+            class W:
+                def catch_warnings(self, record=False):
+                    class CM:
+                        def __enter__(s):
+                            return []
+
+                        def __exit__(s, *a):
+                            pass
+                    return CM()
+
+                def simplefilter(self, *a, **k):
+                    pass
+
+                def warn(self, *a, **k):
+                    pass
+            mini = Mini({"np": numpy_model(log=lambda a: a),
+                         "warnings": W(),
+                         "downsampling": NS("downsampling",
+                                            downsample_grid=grid)})
+            rt = NS("RTDCBase")
+            for st in cls.body:
+                if isinstance(st, ast.FunctionDef) and st.name in (
+                        "_apply_scale", "get_kde_spacing"):
+                    rt.__dict__[st.name] = mini.bind(st)
+            mini.g["RTDCBase"] = rt
+            n = len(mask)
+
+            class Me:
+                filter = NS("filter", all=Arr(mask, "bool"))
+
+                def __getitem__(self, k):
+                    return Feat(k, n)
+
+                def __len__(self):
+                    return n
+            for k, v in rt.__dict__.items():
+                if k != "_name":
+                    setattr(Me, k, staticmethod(v))
+            tag = f"filter {mask}, downsampler keeps {pick}"
+            try:
+                res = mini.call(f, (Me(),), dict(
+                    xax="area_um", yax="deform", downsample=3,
+                    ret_mask=True))
+            except ModelFault as e:
+                for k in bad:
+                    bad[k] = bad[k] or f"{tag}: {e}"
+                continue
+            sel = [i for i, b in enumerate(mask) if b]
+            want = [i for i, b in zip(sel, pick) if b]
+            try:
+                x, y, m = res
+            except (TypeError, ValueError):
+                bad["data"] = bad["data"] or f"{tag}: returns {res!r}"
+                continue
+            gx = [(e.feat, e.i) for e in x]
+            gy = [(e.feat, e.i) for e in y]
+            if gx != [("area_um", i) for i in want] or gy != [
+                    ("deform", i) for i in want]:
+                bad["data"] = bad["data"] or (
+                    f"{tag}: returned x events {gx}, y events {gy}; the "
+                    f"kept selected events are {want}")
+            gm = [i for i, b in enumerate(m) if b] if isinstance(
+                m, Arr) else None
+            if gm != want or len(m) != n:
+                bad["mask"] = bad["mask"] or (
+                    f"{tag}: the mask marks events {gm} (length "
+                    f"{len(m) if isinstance(m, Arr) else '?'}), the "
+                    f"returned data are events {want} of {n}")
+    ctx.ob("R12.6", bad["data"] is None,
+           "the returned points are the selected events the downsampler "
+           "kept, x and y of the same events" if bad["data"] is None
+           else bad["data"], node=f, label="downsampled data")
+    ctx.ob("R12.6", bad["mask"] is None,
+           "the returned mask has the length of the dataset and marks "
+           "exactly the returned events" if bad["mask"] is None
+           else bad["mask"], node=f, label="downsampled mask")
+    ctx.stat("R12.6 evaluations", n_eval)
+
+
 def run(ctx):
     repo = ctx.repo
     ctx.rule("R12.1", "filter taint: feature data reaching an estimator / "
@@ -1230,7 +1516,13 @@ def run(ctx):
     r121(ctx, repo)
     r122(ctx, repo)
     r123(ctx, repo)
+    ctx.rule("R12.5", "bin-width helpers purge NaN / inf and take every "
+             "statistic from the purged value (siblings agree)", minimum=6)
+    ctx.rule("R12.6", "downsampled scatter: mask and returned data mark the "
+             "same selected events", minimum=2)
     r124(ctx, repo)
+    r125(ctx, repo)
+    r126(ctx, repo)
     if ctx.tier == "thorough":
         other = []
         for rel in repo.files("dclab/"):
@@ -1415,3 +1707,68 @@ TWINS = [
       "            posx = RTDCBase._apply_scale(px, xscale, xax)\n"
       "            posy = RTDCBase._apply_scale(py, yscale, yax)\n")),
 ]
+
+
+DOANE_PURGE = ("    bad = np.isnan(a) | np.isinf(a)\n    data = a[~bad]\n"
+               "    n = data.size\n")
+
+MUTANTS = list(MUTANTS) + [
+    ("doane: sample size counts purged events (seeded)", KDE,
+     ("    n = data.size\n", "    n = a.size\n"), "R12.5"),
+    ("doane: range from the raw data", KDE,
+     ("    acc = (data.max() - data.min()) / k\n",
+      "    acc = (a.max() - data.min()) / k\n"), "R12.5"),
+    ("doane: skewness of the raw data", KDE,
+     ("    g1 = skew(data)\n", "    g1 = skew(a)\n"), "R12.5"),
+    ("bin number: range from the raw data", KDE,
+     ("        num = int(np.round((data.max() - data.min()) / acc))",
+      "        num = int(np.round((a.max() - a.min()) / acc))"), "R12.5"),
+    ("percentile width: percentile of the raw data", KDE,
+     ("    start = np.percentile(data, 10)\n",
+      "    start = np.percentile(a, 10)\n"), "R12.5"),
+    ("percentile width: inf not purged", KDE,
+     ("    bad = np.isnan(a) | np.isinf(a)\n    data = a[~bad]\n"
+      "    start = np.percentile",
+      "    bad = np.isnan(a)\n    data = a[~bad]\n"
+      "    start = np.percentile"), "R12.5"),
+    ("doane: purge dropped", KDE,
+     (DOANE_PURGE, "    bad = np.isnan(a) | np.isinf(a)\n    data = a\n"
+      "    n = data.size\n"), "R12.5"),
+    ("doane: mask not inverted", KDE,
+     (DOANE_PURGE, "    bad = np.isnan(a) | np.isinf(a)\n    data = a[bad]\n"
+      "    n = data.size\n"), "R12.5"),
+    ("downsampling: mask written at positions among the selected events "
+     "(seeded)", CORE,
+     ("            mids = np.where(self.filter.all)[0]\n"
+      "            mask[mids] = idx\n",
+      "            mask[np.flatnonzero(idx)] = True\n"), "R12.6"),
+    ("downsampling: mask of the length of the selection", CORE,
+     ("            mask = np.zeros(len(self), dtype=bool)\n"
+      "            mids = np.where(self.filter.all)[0]\n"
+      "            mask[mids] = idx\n",
+      "            mask = np.array(idx)\n"), "R12.6"),
+    ("downsampling: y of all selected events returned", CORE,
+     ("            return x[idx], y[idx], mask",
+      "            return x[idx], y, mask"),
+     "R12.6"),
+]
+
+TWINS = list(TWINS) + [
+    ("doane: sample size via len()", KDE,
+     ("    n = data.size\n", "    n = len(data)\n")),
+    ("doane: finite mask", KDE,
+     (DOANE_PURGE, "    data = a[np.isfinite(a)]\n    n = data.size\n")),
+    ("percentile width: parameter rebound to the purged data", KDE,
+     ("    data = a[~bad]\n    start = np.percentile(data, 10)\n"
+      "    end = np.percentile(data, 90)\n",
+      "    a = a[~bad]\n    start = np.percentile(a, 10)\n"
+      "    end = np.percentile(a, 90)\n")),
+    ("bin number: purged range in locals", KDE,
+     ("        num = int(np.round((data.max() - data.min()) / acc))",
+      "        lo, hi = data.min(), data.max()\n"
+      "        num = int(np.round((hi - lo) / acc))")),
+    ("downsampling: mask via flatnonzero of the filter", CORE,
+     ("            mids = np.where(self.filter.all)[0]\n",
+      "            mids = np.flatnonzero(self.filter.all)\n")),
+]
+
